@@ -48,6 +48,11 @@ Allowed(ctx) ==
 
 Repeatable(ctx, id) == id = 38 \/ (id = 11 /\ ctx = 3)
 
+(* A context number of 100 or more is the lenient reading of context ctx % 100 (see LenientDecode below): every      *)
+(* identifier MQTT defines is read, by its wire type, wherever it stands and however often.                          *)
+AllowedX(ctx) == IF ctx >= 100 THEN DefinedIds ELSE Allowed(ctx)
+RepeatableX(ctx, id) == ctx >= 100 \/ Repeatable(ctx, id)
+
 AccName(id) ==
   CASE id = 1 -> "PayloadFormat" [] id = 2 -> "MessageExpiryInterval" [] id = 3 -> "ContentType"
     [] id = 8 -> "ResponseTopic" [] id = 9 -> "CorrelationData" [] id = 11 -> "SubscriptionID"
@@ -166,8 +171,8 @@ PropLoop(f, fe, lim, ctx, i, seen, out, fm) ==
   IF i > lim THEN OkF(out, i, fm)
   ELSE LET id == f[i] IN
     IF id \notin DefinedIds THEN Fail("undef", "property identifier not defined by MQTT v5.0", i)
-    ELSE IF id \notin Allowed(ctx) THEN Fail("either", "property not allowed in this packet", i)
-    ELSE IF id \in seen /\ ~Repeatable(ctx, id) THEN Fail("either", "property repeated", i)
+    ELSE IF id \notin AllowedX(ctx) THEN Fail("either", "property not allowed in this packet", i)
+    ELSE IF id \in seen /\ ~RepeatableX(ctx, id) THEN Fail("either", "property repeated", i)
     ELSE LET r == RdVal(f, PropKind(id), i + 1, fe, lim, TRUE) IN
       IF ~r.ok THEN r
       ELSE IF PropKind(id) = "bool" /\ r.val > 1 THEN Fail("bool", "boolean property not 0 or 1", i + 1)
@@ -200,7 +205,7 @@ FilterLoop(f, fe, i, out, fm) ==
 RdField(f, k, i, fe, t) ==
   IF k \in {"u8", "u16", "str", "bin"} THEN RdVal(f, k, i, fe, fe, FALSE)
   ELSE IF k = "props" THEN RdProps(f, i, fe, t)
-  ELSE IF k = "wprops" THEN RdProps(f, i, fe, WILLCTX)
+  ELSE IF k = "wprops" THEN RdProps(f, i, fe, WILLCTX + 100 * (t \div 100))
   ELSE IF k = "raw" THEN OkF(SubSeq(f, i, fe), fe + 1, FM("raw", i, fe, FALSE))
   ELSE IF i > fe THEN Fail("either", "empty payload list", i)
   ELSE IF k = "codes" THEN OkF(SubSeq(f, i, fe), fe + 1, FM("raw", i, fe, FALSE))
@@ -226,7 +231,7 @@ Walk(f, fe, t, fl, L, j, i, acc, fm) ==
   ELSE IF ~CondHolds(L[j].c, fl, acc, i, fe) THEN Walk(f, fe, t, fl, L, j + 1, i, acc, fm)
   ELSE LET r == RdField(f, L[j].k, i, fe, t) IN
        IF ~r.ok THEN r
-       ELSE IF ~FieldOK(t, L[j].n, r.val) THEN Fail("either", "value changes the reading of the rest", i)
+       ELSE IF ~FieldOK(t % 100, L[j].n, r.val) THEN Fail("either", "value changes the reading of the rest", i)
        ELSE Walk(f, fe, t, fl, L, j + 1, r.next, acc @@ (L[j].n :> r.val), fm \o r.fm)
 
 (* f is one whole frame: first byte, remaining length, body.               *)
@@ -244,6 +249,18 @@ StrictDecode(f) ==
           ELSE LET w == Walk(f, fe, t, fl, Layout(t), 1, rl.next, EmptyFn, <<>>) IN
                IF ~w.ok THEN w
                ELSE [ok |-> TRUE, pkt |-> [t |-> t, fl |-> fl, v |-> w.v], fm |-> w.fm, hdr |-> rl.next - 1]
+
+(* The lenient reading of a frame: as StrictDecode, except that a property MQTT defines is read by its wire type even  *)
+(* where the packet may not carry it or carries it twice.  It is the only way a decoder that tolerates such a        *)
+(* property can go on, so a frame whose lenient reading meets one of the must-reject conditions (a field cut short,  *)
+(* a fifth length byte, a boolean above 1, an undefined identifier) is rejected by every decoder: by the strict ones *)
+(* at the property, by the tolerant ones at the later fault.                                                          *)
+LenientDecode(f) ==
+  LET fe == Len(f)
+      t == f[1] \div 16
+      fl == f[1] % 16
+      rl == DecVBI(f, 2, fe, fe, FALSE)
+  IN Walk(f, fe, t + 100, fl, Layout(t), 1, rl.next, EmptyFn, <<>>)
 
 (* one whole frame: first byte, minimal remaining length = bytes that follow *)
 Framed(b) ==
@@ -316,7 +333,13 @@ Verdict(f) ==
   IF d.ok THEN IF d.pkt.t = 0 \/ SemOK(d.pkt)
                THEN [kind |-> "accept", pkt |-> d.pkt, fm |-> d.fm, hdr |-> d.hdr]
                ELSE [kind |-> "either", why |-> "structurally valid, semantic rule violated", pkt |-> d.pkt]
-  ELSE IF d.cls = "either" THEN [kind |-> "either", why |-> d.why, at |-> d.at]
+  ELSE IF d.cls = "either"
+       THEN IF d.why \in {"property not allowed in this packet", "property repeated"}
+            THEN LET d2 == LenientDecode(f) IN
+                 IF ~d2.ok /\ d2.cls # "either"
+                 THEN [kind |-> "reject", cls |-> d2.cls, why |-> d2.why, at |-> d2.at]     \* tolerant or not, every decoder must reject
+                 ELSE [kind |-> "either", why |-> d.why, at |-> d.at]
+            ELSE [kind |-> "either", why |-> d.why, at |-> d.at]
   ELSE [kind |-> "reject", cls |-> d.cls, why |-> d.why, at |-> d.at]
 
 (***************************************************************************)
